@@ -78,7 +78,7 @@ theorem length_sortDesc (raw : List Pair) : (sortDesc raw).length = raw.length :
 /-- Two non-increasing lists with the same multiset of entries are equal. -/
 theorem eq_of_perm_of_sorted {l₁ l₂ : List ℚ} (hp : l₁.Perm l₂)
     (h₁ : l₁.Pairwise (fun a b => b ≤ a)) (h₂ : l₂.Pairwise (fun a b => b ≤ a)) : l₁ = l₂ :=
-  List.Perm.eq_of_pairwise (fun a b _ _ hab hba => le_antisymm hba hab) h₁ h₂ hp
+  List.Perm.eq_of_pairwise (fun _ _ _ _ hab hba => le_antisymm hba hab) h₁ h₂ hp
 
 theorem clip_sorted {l : List ℚ} (h : l.Pairwise (fun a b => b ≤ a)) :
     (l.map clip).Pairwise (fun a b => b ≤ a) := by
